@@ -1,10 +1,11 @@
 import Lemmas.Conv128AsFloatUlp
-import Lemmas.Conv128Parse
+import Lemmas.Conv128Rat
 /-! # C02 — 128-bit integers convert and print losslessly and saturate when out of range
 
 Property theorems only.  The executable model is `Model/Conv128.lean` (namespace `Conv`) over the binary64 model
 `GoSem/F64.lean`; it is the code the driver `drv_c02` runs against the Go functions on every check.  Helper lemmas:
-`Lemmas/Conv128*.lean`, `Lemmas/F64*.lean`.  `U128.toNat` / `I128.toInt` are the mathematical values of the two words.
+`Lemmas/Conv128*.lean`, `Lemmas/F64*.lean` (the grammar of integer literals `IsPlainIntLiteral` is in
+`Lemmas/Conv128Grammar.lean`, the rounding facts of `roundRatN` in `Lemmas/F64Nearest.lean`).  `U128.toNat` / `I128.toInt` are the mathematical values of the two words.
 `big.Int` is `Int`; a `float64` is a `GoSem.F64` (`WF` = decoded from a 64-bit pattern, `decode_wf`). -/
 namespace C02
 open Conv GoSem GoSem.F64
@@ -59,15 +60,44 @@ theorem fromString_exact_or_saturates (s : List Char) (z : Int) (h : parseToBigI
   rw [h]
   exact ⟨⟨_, rfl, U128.fromBigInt_spec z⟩, ⟨_, rfl, I128.fromBigInt_spec z⟩⟩
 
-/-- the full statement of `fromString_rejects`: a text is accepted with value `z` exactly when it is an integer
-    literal denoting `z` (grammar `IsIntLiteral`, to be given declaratively: sign, base prefix, digits with single
-    inner underscores; or mantissa with radix point and `e`/`p` exponent whose exact value is an integer).
-    Not proved in this form; the scanner itself is compared with `math/big` on every check run. -/
+/-- `fromString_rejects`, texts without `e`/`E` (the `big.Int.SetString(s, 0)` branch), **both directions**: the text
+    is accepted with value `z` exactly when it is an integer literal of the grammar denoting `z` —
+    `Conv.IsPlainIntLiteral` (`Lemmas/Conv128Grammar.lean`): an optional sign, then `0`, or a decimal literal not
+    starting with `0`, or `0b`/`0o`/`0x` (either case) followed by digits of that base, or `0` followed by octal
+    digits; single underscores are allowed between digits and directly after a prefix, never leading (without prefix),
+    trailing or doubled; the value is the Horner value of the digits.  Everything else is rejected. -/
+theorem fromString_rejects_plain (s : List Char) (z : Int) (h : hasExpChar s = false) :
+    parseToBigInt s = some z ↔ IsPlainIntLiteral s z := by
+  unfold parseToBigInt
+  rw [h]
+  exact bigIntSetString_iff s z
+
+/-- `fromString_rejects`, texts containing `e`/`E` (the `big.Rat.SetString` branch), **both directions**, relative to
+    the transcribed scanner of `big.Rat`: the text is accepted with value `z` exactly when it contains no `/` and the
+    scanner reads it as the fraction `n/d` (mantissa with optional radix point, decimal or binary exponent) whose exact
+    value is the integer `z` (`n = z·d`, `d > 0`); a non-integral value, a fraction `a/b` and any text the scanner
+    refuses are rejected. -/
+theorem fromString_rejects_exp (s : List Char) (z : Int) (h : hasExpChar s = true) :
+    parseToBigInt s = some z ↔
+      hasSlash s = false ∧ ∃ n d, bigRatSetString s = some (n, d) ∧ 0 < d ∧ n = z * d := by
+  rw [parseToBigInt_exp_iff s z h]
+  constructor
+  · rintro ⟨h1, n, d, h2, h3⟩
+    exact ⟨h1, n, d, h2, bigRatSetString_den_pos s n d h2, h3⟩
+  · rintro ⟨h1, n, d, h2, _, h3⟩
+    exact ⟨h1, n, d, h2, h3⟩
+
+/-- what is still open of `fromString_rejects`: one declarative grammar `IsIntLiteral` for *all* texts.  For texts
+    without `e`/`E` it is `IsPlainIntLiteral` (`fromString_rejects_plain`).  Missing is the declarative description of
+    the mantissa/exponent form read by `bigRatSetString` (digits with separators and one optional radix point after
+    an optional base prefix, `e`/`E`/`p`/`P` exponent with separators, the limits on the exponents) together with its
+    value `mantissa · base^(−fraction digits) · (10|2)^exponent`; `fromString_rejects_exp` reduces the clause to that
+    scanner, which is compared with `math/big` on every check run. -/
 def fromString_rejects_Statement (IsIntLiteral : List Char → Int → Prop) : Prop :=
   ∀ s z, parseToBigInt s = some z ↔ IsIntLiteral s z
 
-/-- `fromString_rejects`, proved part: the empty text is rejected; a text with an exponent character and a `/` is
-    rejected (the fraction syntax of `big.Rat` is excluded); and a text without `e`/`E` is rejected unless it is an
+/-- `fromString_rejects`, character-class corollaries: the empty text is rejected; a text with an exponent character
+    and a `/` is rejected (the fraction syntax of `big.Rat` is excluded); and a text without `e`/`E` is rejected unless it is an
     optional sign followed by a non-empty run of ASCII letters, digits and underscores — so blanks, quotes (a JSON
     string), radix points, a second sign, control characters and non-ASCII bytes are never accepted there. -/
 theorem fromString_rejects_partial (s : List Char) :
@@ -325,5 +355,18 @@ example : U128.fromFloat64 (decode 0x43f0000000000000) = .ok ⟨1#64, 0#64⟩ :=
   rw [fromFloat64_spec_u _ (decode_wf _)]; decide
 
 example : parseToBigInt ['1', 'e', '2'] = some 100 := by decide
+
+/-- the grammar is inhabited on both sides: `-0x_1f` is a literal denoting −31; `1__0` is not a literal at all -/
+example : IsPlainIntLiteral ['-', '0', 'x', '_', '1', 'f'] (-31) :=
+  (fromString_rejects_plain _ _ (by decide)).mp (by decide)
+example : ¬ ∃ z, IsPlainIntLiteral ['1', '_', '_', '0'] z := fun ⟨z, h⟩ => by
+  have := (fromString_rejects_plain _ z (by decide)).mpr h
+  have hn : parseToBigInt ['1', '_', '_', '0'] = none := by decide
+  rw [hn] at this; cases this
+
+/-- a value where all three roundings of `AsFloat64` are inexact and the first and the last are ties
+    (hi = 2^53 + 1, lo = 2^64 − 1): the result is 2^117, its unit is 2^65, the error is 2^65 − 1 — the bound of
+    `asFloat64_within_ulp_u` is attained up to 1 -/
+example : (⟨0x20000000000001#64, 0xffffffffffffffff#64⟩ : U128).asFloat64 = .fin false (2^52) 65 := by decide
 
 end C02
